@@ -2,12 +2,16 @@
 # Copyright (c) 2022: Ludwig Schneider
 # See LICENSE for details
 
+import re
+
 from .atom import Atom
 from .bond import BondDescriptor
 from .core import _GLOBAL_RNG, BigSMILESbase, choose_compatible_weight
 from .mol_gen import MolGen
 
 _SMILES_DOUBLE_LETTER_ATOM = ("Cl", "Br")
+
+_RING_CLOSURE = re.compile(r"[-=#$:]?(%\d\d|\d)")
 
 _SMILES_SINGLE_LETTER_ATOM = (
     "B",
@@ -176,6 +180,8 @@ class SmilesToken(BigSMILESbase):
                         preceding_characters = preceding_characters[
                             preceding_characters.find("(") + 1 :
                         ]
+                    # A bond symbol in front of a ring closure digit belongs to the ring bond.
+                    preceding_characters = _RING_CLOSURE.sub("", preceding_characters)
                     # Only characters directly following the descriptor can describe its bond,
                     # stop at a closing branch or the next bond descriptor.
                     following_characters = elementB
